@@ -18,56 +18,56 @@ NEC = ('Necessary conditions only: the rules are structural necessary conditions
 
 CLAIMS = {
     # pid: (technique, level text, design_ref, not-decided note)
-    'C01': ('path-sensitive predicate-abstraction evaluation of process_msg / recv_once (decision tables over id ordering), def-use of ids across MQ.recv/MQ.send',
-            'Decides, on every syntactic path of the receiver closures, the id-ordering decision table, reset of the other sources on a newer id, universal completeness, the two-source completion decision and the id hand-over input->output.',
+    'C01': ('path-sensitive predicate-abstraction evaluation of process_msg / recv_once (decision tables over id ordering), def-use of ids across MQ.recv/MQ.send; construction table of per-id sets (new_recv / init_recvd / process_msg), completion decision in both directions, prune-only-unlisted-topics, entry form of the expected id',
+            'Decides, on every syntactic path of the receiver closures, the id-ordering decision table, reset of the other sources on a newer id, universal completeness, the two-source completion decision and the id hand-over input->output. Also: the message that opens or extends a set is kept in it, only topics the publisher does not list are dropped, a complete set IS reported when nothing tolerable is missing, and the expected id at entry is never below the remembered one (D9 / D10).',
             'DESIGN.md §2 C01', 'Not decided: that the sets are right for every interleaving / loss pattern.'),
     'C02': ('path evaluation of send_maybe / poll_recv / recv (monotone id stores, stale-send return, fast-forward guard), store enumeration, symbolic string templates for the topic wire encoding at publisher, subscriber and decoder',
             'Decides monotonicity of ids on both sides as a store/guard discipline, the duplicate-topic raise, and that the three sites that must agree on the wire encoding of topic names do agree (hidden/normal/control cases).',
             'DESIGN.md §2 C02', 'Not decided: duplicate suppression across reconnect histories; payload bytes.'),
-    'C03': ('path evaluation of Filter.process_frames and its deferred wrapper, MQ.send, send_maybe, poll_recv and request(); who-calls queries',
-            'Decides the process() result contract (None/Frame/dict/callable), deferred evaluation sites, None/{} semantics on the publish path, the handshake and the required-outputs gate.',
+    'C03': ('path evaluation of Filter.process_frames and its deferred wrapper, MQ.send, send_maybe, poll_recv and request(); who-calls queries; path evaluation of the send callback with closure semantics (nonlocal write-back), of the driver of ZMQSender.send, shares of the poller typestate and the wire-encoding agreement',
+            'Decides the process() result contract (None/Frame/dict/callable), deferred evaluation sites, None/{} semantics on the publish path, the handshake and the required-outputs gate. Also: the send callback publishes exactly the returned topics (None -> nothing, evaluated once), the publishing driver refuses only used-up ids, complete sources leave the poller, subscription prefixes select whole names.',
             'DESIGN.md §2 C03', 'Not decided: losslessness under every admissible schedule.'),
-    'C04': ('decision table of the per-client loop in poll_recv, guard dominance of every publish in send_maybe, who-may-call for push/request, store enumeration of client removal',
-            'Decides the flag discipline that makes any buffering bound possible: requested set only by a request and cleared by every publish, no publish without permission, requests only from recv(), removal only on CLOSE / connection timeout.',
+    'C04': ('decision table of the per-client loop in poll_recv, guard dominance of every publish in send_maybe, who-may-call for push/request, store enumeration of client removal; path evaluation of the driver of send() (drain, refuse-old, success/abandon/timeout exits, wait between attempts)',
+            'Decides the flag discipline that makes any buffering bound possible: requested set only by a request and cleared by every publish, no publish without permission, requests only from recv(), removal only on CLOSE / connection timeout. Also: the driver of send() and the balanced choice of the branch (only outputs whose consumers all asked).',
             'DESIGN.md §2 C04', 'Not decided: the numeric bound itself (a runtime quantity).'),
-    'C05': ('same decision tables restricted to ephemeral rows; guard dominance of every use of the request socket; path evaluation of the ephemeral branch of recv_once',
-            'Decides that ephemeral clients cannot veto or fast-forward the publisher, that ?? sources have no request channel, per-source id tracking and reset exemptions.',
+    'C05': ('same decision tables restricted to ephemeral rows; guard dominance of every use of the request socket; path evaluation of the ephemeral branch of recv_once; socket-option table for every endpoint constructor, DONTWAIT on request pushes',
+            'Decides that ephemeral clients cannot veto or fast-forward the publisher, that ?? sources have no request channel, per-source id tracking and reset exemptions. Also: no socket option that turns a publish into a blocking call, bounded PUB queue, an ephemeral CLOSE never touches the shared expected id, request marks per source.',
             'DESIGN.md §2 C05', 'Not decided: "never delays the publisher" as a timing statement.'),
-    'C06': ('path evaluation of the wait loop, poller register/unregister typestate pairing, existence and reachability of the adoption and removal sites',
-            'Decides only the presence of each mechanism whose absence yields a permanent stall for some fault history (re-request, re-registration, id adoption in both directions, dead-client removal, handshake).',
+    'C06': ('path evaluation of the wait loop, poller register/unregister typestate pairing, existence and reachability of the adoption and removal sites; abandon-implies-fast-forward on every path of poll_recv, must-unregister of complete sources, per-source handshake mark',
+            'Decides only the presence of each mechanism whose absence yields a permanent stall for some fault history (re-request, re-registration, id adoption in both directions, dead-client removal, handshake). Also: every "abandon" of poll_recv adopts the consumer's id (restart at the initial id included), HELLO under balance, the driver keeps waiting for requests.',
             'DESIGN.md §2 C06', 'Not decided: liveness under fair schedules, recovery time bounds.'),
     'C07': ('path evaluation of send_maybe under balance (socket list shape, candidate filter), of the balanced branch of recv_once and of the prefetch guard',
             'Decides one-socket-per-balanced-publish, one-source-at-a-time at the rejoin, no prefetch at the first hop, the balanced mark in the envelope, HELLO to all outputs.',
             'DESIGN.md §2 C07', 'Not decided: strict ordering of the rejoined stream for unequal worker speeds.'),
-    'C08': ('exception-structure evaluation of Filter.run (try/except/finally semantics with subclass matching) for every (lifecycle site x exception kind x propagate policy x loop policy) scenario, incl. exit() inlined from each stage; constant folding of the policy tables; scoping-rule lint for calls of module objects; acquire/release pairing',
-            'Decides the complete outcome table of run() for a fault or exit() injected at every lifecycle call site: shutdown/fini/stop_logging counts, stop event, exit message kind and policy bit, return-vs-raise; plus policy bit tables, exit() always raising, stop-event polling and the exit_after test in loop_once, teardown pairing. This quantifier (crash points x policies) is finite and is covered exhaustively.',
+    'C08': ('exception-structure evaluation of Filter.run (try/except/finally semantics with subclass matching) for every (lifecycle site x exception kind x propagate policy x loop policy) scenario, incl. exit() inlined from each stage; constant folding of the policy tables; scoping-rule lint for calls of module objects; acquire/release pairing; guard extraction of the out-of-band callback on both sides of a connection',
+            'Decides the complete outcome table of run() for a fault or exit() injected at every lifecycle call site: shutdown/fini/stop_logging counts, stop event, exit message kind and policy bit, return-vs-raise; plus policy bit tables, exit() always raising, stop-event polling and the exit_after test in loop_once, teardown pairing. This quantifier (crash points x policies) is finite and is covered exhaustively. Also: exit announcements reach the handler whatever the state of the peer (C08.R7); early returns of loop_once count as normal ends for the deadline test.',
             'DESIGN.md §3 C08', 'Not decided: delivery of exit messages over the network; exit_after parsing of every textual form.'),
-    'C18': ('the same scenario evaluation of Filter.run with lineage emissions as the event alphabet (count and kind of terminal events per scenario), store enumeration for run_id',
-            'Decides, for every way a run can end, how many terminal lineage events the code emits and of which kind, that START comes first and that one run id is used. On the pinned tree every scenario emits several terminal events (genuine defect D8, seven keyed emission sites recorded as known findings).',
+    'C18': ('the same scenario evaluation of Filter.run with lineage emissions as the event alphabet (count and kind of terminal events per scenario), store enumeration for run_id; emitter method table (event type per method, heartbeat loop, thread start), stop-before-terminal ordering with inlined helpers, synchronisation of stop with the heartbeat thread',
+            'Decides, for every way a run can end, how many terminal lineage events the code emits and of which kind, that START comes first and that one run id is used. On the pinned tree every scenario emits several terminal events (genuine defect D8, seven keyed emission sites recorded as known findings). Also: START precedes anything init() can fail on, the heartbeat is stopped before every terminal emission and RUNNING comes from the heartbeat loop only, each emitter method emits the event type it is named after; stop_lineage_heart_beat() does not wait for the thread (known finding D14).',
             'DESIGN.md §3 C18', 'Not decided: heartbeat timing relative to the run length; the asynchronous COMPLETE of the heartbeat thread is modelled as emitted once after the first stop request.'),
-    'C09': ('writer/reader table agreement: envelope indices resolved through Frame.from_jpg = from_blob parameter names and numpy shape order, message list shapes, encoding literals',
-            'Decides that MQ.frames2topicmsgs and MQ.topicmsgs2frames agree on the envelope field roles, the four message layouts, the encoding decision and the shape assertions of lazy decode.',
+    'C09': ('writer/reader table agreement: envelope indices resolved through Frame.from_jpg = from_blob parameter names and numpy shape order, message list shapes, encoding literals; partial evaluation (ofverif/peval.py) of decoder over encoder for ten abstract frame kinds; imdecode flag table; wire envelope agreement in zeromq.py; accessor table of Frame',
+            'Decides that MQ.frames2topicmsgs and MQ.topicmsgs2frames agree on the envelope field roles, the four message layouts, the encoding decision and the shape assertions of lazy decode. Also decides decode(encode(frame)) symbolically for every kind of frame (no image / raw / jpg x data / no data): the decoder, partially evaluated on the message term the encoder builds, yields the constructor call that rebuilds the frame; the transport splits and re-joins a message at the same point; JPEGs decode to the declared channel count.',
             'DESIGN.md §3 C09', 'Not decided: pixel equality, JPEG tolerance, arbitrary JSON values.'),
-    'C10': ('path evaluation of every Frame accessor with class-private name mangling: guard dominance of cache stores, provenance of arrays handed to Frame(x, self, ...), freeze-before-return, package-wide who-writes flags.writeable',
-            'Decides the per-accessor invariants that make every history safe: caches filled only from read-only sources, promised copies built on fresh arrays, read-only never lifted in place, read-only views frozen, conversion table.',
+    'C10': ('path evaluation of every Frame accessor with class-private name mangling: guard dominance of cache stores, provenance of arrays handed to Frame(x, self, ...), freeze-before-return, package-wide who-writes flags.writeable; construction table of Frame.__init__, accessor / predicate table, self-return decisions of every view accessor',
+            'Decides the per-accessor invariants that make every history safe: caches filled only from read-only sources, promised copies built on fresh arrays, read-only never lifted in place, read-only views frozen, conversion table. Also: a frame built on an array never inherits an encoding, accessors read rows/columns/label of the declared state, a frame hands out itself only when it already has the requested format and mutability, pickle round trip field by field.',
             'DESIGN.md §3 C10', 'Not decided: pixel values; multi-step histories beyond the per-accessor invariants.'),
-    'C12': ('path evaluation of the endpoint constructors for the port offsets, constant folding of TCP_DEFAULT_PORT, def-use shape of the source rewrite, delimiter-set extraction',
-            'Decides the arithmetic and grammar agreements the CLI wiring relies on: port span {p, p+1} at both ends vs. allocation step and default port, complete scan before allocation, suffix preservation, delimiter agreement.',
-            'DESIGN.md §3 C12', 'Not decided: id assignment, auto-chaining and id->address resolution as functions of the argument values.'),
-    'C13': ('path evaluation of RollLog.write / new_logfile / prune_logfiles, lock-dominance query over all stores to the shared state',
-            'Decides that a new log file cannot reuse an existing name (exclusive mode or timestamp forced above the newest), that the budget is tested after every write, that the newest file is never unlinked and the reader is re-based, and the lock discipline.',
-            'DESIGN.md §3 C13', 'Not decided: record-level exactly-once/in-order delivery across roll-over, refresh and pruning histories.'),
-    'C14': ('path evaluation of write_head / __init__ / close with with-block exit events: who-may-open the head path, write-close-rename ordering, validation dominance of seek()',
-            'Decides that the head file changes only by rename of a closed temp file (so a crash at any of the save\'s file-system calls leaves old or new content), that restore validates and never reads the temp file, and that the saved position is the reader\'s own.',
+    'C12': ('path evaluation of the endpoint constructors for the port offsets, constant folding of TCP_DEFAULT_PORT, def-use shape of the source rewrite, delimiter-set extraction; structural idiom tables for id assignment, bind->connect address conversion, the address cache and the order of presence tests vs. normalisation',
+            'Decides the arithmetic and grammar agreements the CLI wiring relies on: port span {p, p+1} at both ends vs. allocation step and default port, complete scan before allocation, suffix preservation, delimiter agreement. Also: generated ids (class name / class name + index, only for filters without id), bind address -> connect address pairing for user-given and allocated outputs, the cache of resolved addresses holds bare addresses, explicitly empty switches stay the user's choice.',
+            'DESIGN.md §3 C12', 'Not decided: the full wiring as a function of arbitrary argument values (only the structural clauses listed).'),
+    'C13': ('path evaluation of RollLog.write / new_logfile / prune_logfiles, lock-dominance query over all stores to the shared state; decision tables over the path sets of read() (unrolled twice) and write(); regex-AST vs f-string template agreement of log file names; self-call havoc and exception-handler exploration in the evaluator',
+            'Decides that a new log file cannot reuse an existing name (exclusive mode or timestamp forced above the newest), that the budget is tested after every write, that the newest file is never unlinked and the reader is re-based, and the lock discipline. Also: write() framing / accounting / roll-over / new-file protocol, read() bounds, give-up, continuation, refresh and decode tables, file names written match the scan pattern field by field and are listed under the timestamp they encode (D13), refresh entry table, the step after a refresh (D15), tell() positions.',
+            'DESIGN.md §3 C13', 'Not decided: record-level exactly-once/in-order delivery as a statement over all interleavings (only the per-function decision tables it rests on).'),
+    'C14': ('path evaluation of write_head / __init__ / close with with-block exit events: who-may-open the head path, write-close-rename ordering, validation dominance of seek(); decision tables of seek() and tell(); head file writer/reader agreement',
+            'Decides that the head file changes only by rename of a closed temp file (so a crash at any of the save\'s file-system calls leaves old or new content), that restore validates and never reads the temp file, and that the saved position is the reader\'s own. Also: seek() lands on the saved (file, offset) or the first newer file, tell() reports the next unread byte in every state, the head file is one JSON document read back by the inverse, scan finds what the writer names.',
             'DESIGN.md §3 C14', 'Not decided: "no record on disk is skipped" across arbitrary histories (seek landing, pruning timing).'),
-    'C16': ('path evaluation of OTelLineageExporter.export / _is_allowed (guard dominance of every facet store keyed by a metric name), return-path analysis of read_allowlist, def-use to the exporter constructor',
-            'Decides that no metric reaches the exported facet without passing the allow-list test, that an empty list allows nothing (only an explicit None allows all), that the default is the empty set handed through unmodified, and the histogram facet shape.',
+    'C16': ('path evaluation of OTelLineageExporter.export / _is_allowed (guard dominance of every facet store keyed by a metric name), return-path analysis of read_allowlist, def-use to the exporter constructor; shared-mutable-default lint on the emitter; order-comparison analysis of the histogram repair branch',
+            'Decides that no metric reaches the exported facet without passing the allow-list test, that an empty list allows nothing (only an explicit None allows all), that the default is the empty set handed through unmodified, and the histogram facet shape. Also: the heartbeat facet is replaced, never accumulated in a shared default dict; truncation / padding are chosen by comparing with exactly len(bounds) + 1.',
             'DESIGN.md §3 C16', 'Not decided: metric values.'),
-    'C17': ('path evaluation of Util.execute_xform_size and the video reader resize region with symbolic dimension terms: bound/clamp shape of every size handed to cv2.resize, sibling cross-check, dispatch set agreement, operation table',
-            'Decides bounds by construction (min/max against the configured pair), that no computed dimension reaches OpenCV unclamped, that accepted and executed actions agree, and the flip/rotate/format/box table.',
-            'DESIGN.md §3 C17', 'Not decided: aspect ratio within one pixel, pixel permutations, colours.'),
-    'C15': ('forward, flow-sensitive, field-sensitive, summary-based inter-procedural taint analysis (config URI -> log / frame metadata / lineage facets / logged exception text) with isinstance narrowing; class-hierarchy evaluation of the sanitising walk; regex-AST inspection of the masking patterns',
-            'Decides that no configuration URI reaches a sink in Filter, the built-in filters or the lineage emit path without passing a sanitizer, that the masking walk recurses into every container class a configuration can hold, and that the mask patterns cover the documented alphabet. Five confirmed leaks that need a design decision (MQTTOut broker userinfo, ImageWriter file names) are recorded as known findings; the others were repaired.',
+    'C17': ('path evaluation of Util.execute_xform_size and the video reader resize region with symbolic dimension terms: bound/clamp shape of every size handed to cv2.resize, sibling cross-check, dispatch set agreement, operation table; symbolic ratio classification of the scaled dimensions (aspect law), regex-group vs unpack-order agreement of the size / box parameters, loop-carried-value check in the video reader, chain-order check in Util.process',
+            'Decides bounds by construction (min/max against the configured pair), that no computed dimension reaches OpenCV unclamped, that accepted and executed actions agree, and the flip/rotate/format/box table. Also: both dimensions are scaled by one common ratio (aspect law by construction), WxH means width first in both parsers, the size is computed from the frame it is applied to, chains run in configured order, flips / rotations hand on arrays of their own.',
+            'DESIGN.md §3 C17', 'Not decided: the one-pixel rounding bound as arithmetic over all sizes; pixel values.'),
+    'C15': ('forward, flow-sensitive, field-sensitive, summary-based inter-procedural taint analysis (config URI -> log / frame metadata / lineage facets / logged exception text) with isinstance narrowing; class-hierarchy evaluation of the sanitising walk; regex-AST inspection of the masking patterns; conditional labels for sanitised / re-prefixed parameters resolved at call sites, closure resolution, dict-key labels; structural check of delimiter re-attachment',
+            'Decides that no configuration URI reaches a sink in Filter, the built-in filters or the lineage emit path without passing a sanitizer, that the masking walk recurses into every container class a configuration can hold, and that the mask patterns cover the documented alphabet. Five confirmed leaks that need a design decision (MQTTOut broker userinfo, ImageWriter file names) are recorded as known findings; the others were repaired. Also: a sanitizer applied to a value whose scheme was cut off does not count, pieces split off at "!" are re-attached from the end (";" and "," are not: two more known findings), empty users are masked.',
             'DESIGN.md §3 C15', 'Not decided: that the regexes mask every RFC-valid credential (language inclusion); flows through objects whose type the resolver cannot bind (listed in evidence); exception texts of external libraries.'),
 }
 
